@@ -53,7 +53,9 @@ Record caller := mkCaller {
   c_kind : kind;
   c_gor : nat;                  (* issuing goroutine *)
   c_seq : Z;                    (* Header.Sequence of the packet *)
-  c_frame : outcome bytes;      (* what pdu.Marshal yields for the packet *)
+  c_frame : outcome bytes;      (* what Send obtains before it calls the transport Write: what pdu.Marshal yields
+                                   for the packet — or an error when a configured write deadline could not be set
+                                   ([send_prep] in Model/ConnRun.v) *)
   c_pc : cpc;
   c_ctx : bool;                 (* the call's own context is done *)
   c_wrote : bool;               (* ghost: the call reached transport.Write *)
